@@ -346,6 +346,24 @@ func (r *runner) finish(rq *request, code int) error {
 	}
 }
 
+// effects returns the side-effect counters once they have reached at least (minT, minS): the breaker runs its side
+// effects in fresh goroutines, so a transition that was just observed may not have been counted yet. Counting
+// goroutines alone is not reliable (a finished history's goroutine may still be exiting when the next one starts).
+func (r *runner) effects(minT, minS int64) (int64, int64) {
+	deadline := time.Now().Add(3 * time.Second)
+	for i := 0; ; i++ {
+		nT, nS := atomic.LoadInt64(&r.onTripped.n), atomic.LoadInt64(&r.onStandby.n)
+		if (nT >= minT && nS >= minS) || time.Now().After(deadline) {
+			return nT, nS
+		}
+		if i < 100 {
+			runtime.Gosched()
+		} else {
+			time.Sleep(50 * time.Microsecond)
+		}
+	}
+}
+
 // settle waits until the side-effect goroutines launched by exec() have run: only the blocked handlers remain.
 func (r *runner) settle() {
 	deadline := time.Now().Add(2 * time.Second)
@@ -475,7 +493,7 @@ func (c *cbComp) Run(h *hlib.History) ([]hlib.Mon, bool) {
 			}
 			r.settle()
 			cur := r.state()
-			nT, nS := atomic.LoadInt64(&r.onTripped.n), atomic.LoadInt64(&r.onStandby.n)
+			nT, nS := r.effects(expT, expS+hlib.B2i(prev != stStandby && cur == stStandby))
 			h.Obs = append(h.Obs, []int64{1 - hlib.B2i(pass), cur, nT, nS})
 
 			// the ramp decision, if this arrival reached allowRequest: recompute both sides exactly
@@ -608,7 +626,7 @@ func (c *cbComp) Run(h *hlib.History) ([]hlib.Mon, bool) {
 			}
 			r.settle()
 			cur := r.state()
-			nT, nS := atomic.LoadInt64(&r.onTripped.n), atomic.LoadInt64(&r.onStandby.n)
+			nT, nS := r.effects(expT+hlib.B2i(prev != stTripped && cur == stTripped), expS)
 			h.Obs = append(h.Obs, []int64{cur, nT, nS})
 
 			// C18: the decision recomputed from the monitor's own log
@@ -687,7 +705,7 @@ func (c *cbComp) Run(h *hlib.History) ([]hlib.Mon, bool) {
 	// a late side effect would show up here
 	time.Sleep(200 * time.Microsecond)
 	r.settle()
-	if nT, nS := atomic.LoadInt64(&r.onTripped.n), atomic.LoadInt64(&r.onStandby.n); nT != expT || nS != expS {
+	if nT, nS := r.effects(expT, expS); nT != expT || nS != expS {
 		mon("C18", len(h.Ops)-1, "at the end: side effects ran (onTripped %d, onStandby %d), transitions seen (->tripped %d, ->standby %d)", nT, nS, expT, expS)
 	}
 	return mons, true
